@@ -136,8 +136,9 @@ STRINGY = ["string", "normalizedString", "token", "language", "anyURI"]
 DATEY = ["date", "time", "dateTime"]
 DURS = ["duration", "dayTimeDuration", "yearMonthDuration"]
 MODELLED = list(INT_BOUNDS) + ["decimal", "boolean"] + STRINGY + DATEY + DURS + ["hexBinary", "base64Binary"]
-UNMODELLED_DT = ["float", "double"]
-ALL_DT = MODELLED + UNMODELLED_DT
+UNMODELLED_DT = []
+FLOATY = ["float", "double"]     # modelled apart from the other datatypes (RV/C09/FloatModel.lean): lex and py streams only
+ALL_DT = MODELLED + FLOATY + UNMODELLED_DT
 NUMERIC = set(INT_BOUNDS) | {"decimal", "float", "double"}
 
 # ------------------------------------------------------------------ XSD 1.1 lexical spaces (oracle)
@@ -417,8 +418,24 @@ def canon(v):
             return "dur:fractional"
         return f"dur:{int(v.years)}:{int(v.months)}:{(td.days * 86400 + td.seconds) * 10 ** 6 + td.microseconds}"
     if type(v) is float:
-        return "float"
+        return canon_float(v)
     return "other:" + type(v).__name__
+
+
+def canon_float(x):
+    """nan | inf | -inf | f:<neg>:<m>:<e> (the double is ±m·2^e, m < 2^53, e >= -1074) — exact, no float crosses the protocol"""
+    if x != x:
+        return "nan"
+    if x in (math.inf, -math.inf):
+        return "inf" if x > 0 else "-inf"
+    neg = int(math.copysign(1.0, x) < 0)
+    if x == 0:
+        return f"f:{neg}:0:0"
+    m, e = math.frexp(abs(x))
+    m, e = int(m * 2 ** 53), e - 53
+    while e < -1074:
+        m, e = m // 2, e + 1
+    return f"f:{neg}:{m}:{e}"
 
 
 def ill(x):
@@ -448,6 +465,9 @@ _PERIOD = re.compile(r"^(?P<sign>[+-])?P(?!\b)(?P<years>[0-9]+([,.][0-9]+)?Y)?(?
 def in_fragment(dt, s):
     if not all(9 <= ord(c) <= 13 or 32 <= ord(c) <= 126 for c in s):
         return False
+    if dt in FLOATY:
+        m = re.search("[eE]", s)
+        return len(s[m.start():] if m else "") <= 6
     if dt == "decimal":
         t = s.strip(_WS).replace("_", "")
         if t[:1] in ("+", "-"):
@@ -517,7 +537,7 @@ def py_modelled(spec):
     if t == "bytes":
         return False
     if t == "float":
-        return spec["hex"] in ("inf", "-inf", "nan") and False   # floats never cross the protocol
+        return True      # as nan | inf | -inf | sign, mantissa, binary exponent (exact integers)
     if t == "str":
         return True
     return True
@@ -541,6 +561,9 @@ def py_model_words(spec):
         return f"td {spec['us']}"
     if t == "dur":
         return f"dur {spec['y']} {spec['m']} {spec['us']}"
+    if t == "float":
+        c = canon_float(_py_value(spec))
+        return "fpy " + (c if ":" not in c else " ".join(c.split(":")[1:]))
     raise KeyError(t)
 
 
@@ -593,7 +616,7 @@ def _lit_modelled(litspec):
     if litspec.get("lang"):
         return False      # language tags are outside the Lean model
     if "v" in litspec:
-        return py_modelled(litspec["v"])
+        return py_modelled(litspec["v"]) and litspec["v"]["t"] != "float"   # float literals: lex / py streams only
     dt = litspec["dt"]
     s = "".join(chr(c) for c in litspec["cps"])
     return (dt is None or dt in MODELLED) and in_fragment(dt, s)
@@ -606,7 +629,7 @@ def run_lex(case):
     px = xsd_parse(dt, s)
     valid = px is not None
     stats["lex_valid" if valid else "lex_invalid"] = 1
-    modelled = dt in MODELLED and in_fragment(dt, s)
+    modelled = (dt in MODELLED or dt in FLOATY) and in_fragment(dt, s)
     arg = s.encode("utf-8", "surrogatepass") if case.get("bytes") else (MyStr(s) if case.get("strsub") else s)
     if case.get("bytes"):
         stats["lex_as_bytes"] = 1
@@ -1138,6 +1161,8 @@ def model_lines(case):
     if k in ("xml", "bind"):
         return pre + ["skip"]
     if k == "lex":
+        if case["dt"] in FLOATY:
+            return pre + [f"flex {case['dt']} " + cps_str("".join(chr(c) for c in case["cps"])) + " " + case.get("nmode", "d")]
         if case["dt"] not in MODELLED:
             return pre + ["skip"]
         return pre + [f"lex {case['dt']} " + cps_str("".join(chr(c) for c in case["cps"])) + " " + case.get("nmode", "d")]
@@ -1147,6 +1172,8 @@ def model_lines(case):
             return pre + ["skip"]
         if sp.get("dt"):
             return pre + [f"pyd {sp['dt']} " + py_model_words(sp)]
+        if sp["t"] == "float":
+            return pre + [py_model_words(sp)]
         return pre + ["py " + py_model_words(sp)]
     if k == "eqpy":
         if not (_lit_modelled(case["a"]) and py_modelled(case["v"])) or case["v"]["t"] == "float":
